@@ -133,6 +133,11 @@ def _analyse(repo, fi: FunctionInfo):
                 pe_in = PathEval(fi.node, e2, post=complement_norm)
                 pe_in.init_alias = al
                 inner = pe_in.run(l3.body)
+                for x in inner:
+                    # `continue` as the last step of the innermost body, after the cell was updated on
+                    # that path, ends the iteration as falling off the end does
+                    if x.ret == "<continue>" and any(k.replace(".iloc", "").startswith("cor[") for k in x.named_stores):
+                        x.ret = None
                 skips += [x for x in inner if x.ret is not None and x.ret != RAISE]
                 out.append((minmax, p, q, e2, inner, skips))
     return nest, out
@@ -414,8 +419,21 @@ def check_c(ck, repo):
         b_ = {k: src_of(v) for k, v in bind(c[0], cm.named_params).items()}
         p0 = cm.named_params
         # (metric, y_true, y_pred, tr, inv_tr): each reaches the parameter of the same role, by position or keyword
+        extra_bound = {}
+        mexp = bind(c[0], cm.named_params).get(p0[0])
+        if mexp is not None:
+            # options bound to the metric beforehand (functools.partial) reach it as keyword arguments do
+            try:
+                from .sem import stmt_of as _so
+                mt = ast.parse(expander(repo).text(mexp, r2, _so(c[0])), mode="eval").body
+            except SyntaxError:
+                mt = None
+            if isinstance(mt, ast.Call) and src_of(mt.func) in ("functools.partial", "partial") and len(mt.args) == 1 and all(k.arg for k in mt.keywords):
+                b_[p0[0]] = src_of(mt.args[0])
+                extra_bound = {k.arg: src_of(k.value) for k in mt.keywords}
         ok = b_.get(p0[0]) == "r2_score" and b_.get(p0[1]) == r2.named_params[0] and b_.get(p0[2]) == r2.named_params[1] and b_.get(ptr) == "tr" and b_.get(pinv) == "inv_tr" and {"tr", "inv_tr"} <= set(r2.named_params)
         extra = {k.arg: src_of(k.value) for k in c[0].keywords if k.arg not in p0}
+        extra.update(extra_bound)
         ok = ok and extra == {"sample_weight": "sample_weight", "multioutput": "multioutput"}
     ck.verdict(ok, "C18.c", r2, c[0] if c else "comparable_metric(r2_score, y_true, y_pred, ...)", "r2_score_comparable = comparable_metric(r2_score, y_true, y_pred, tr=tr, inv_tr=inv_tr, ...)", "r2_score_comparable does not forward (y_true, y_pred, tr, inv_tr) in order")
     d = {a.arg: src_of(v) for a, v in zip(r2.node.args.kwonlyargs, r2.node.args.kw_defaults)}
